@@ -10,6 +10,8 @@ import DclabModel.DriveUtil
     → `conforms <n> <states>` | `violates <k> <states>`  where <states> has, per output path
       (joined by `|`), one letter per crash point k = 0..n for the state after `fail tr k`:
       u = untouched initial file, a = absent, c = complete (final closed file), p = anything else.
+      The last word is `fresh` or `stale:<k>` (operation k looks at a leftover temporary that
+      was neither removed nor truncated before, `DclabModel.Cli.freshFrom`).
 -/
 open DclabModel.Cli DclabModel.DriveUtil
 
@@ -59,10 +61,13 @@ def handle (_ : Unit) (line : String) : Unit × String :=
       let r : Roles := { ins := ins, outs := outs, temps := temps }
       let fs0 : FS := ex.eraseDups.map fun p => (p, { content := [1000000 + p], openW := false })
       let states := joinWith "|" (outs.map (statesOf fs0 tr))
-      if Conforms r fs0 tr then ((), s!"conforms {tr.length} {states}")
+      let fresh := match firstStale r.temps (absentTemps r fs0) tr 0 with
+        | none => "fresh"
+        | some k => s!"stale:{k}"
+      if Conforms r fs0 tr then ((), s!"conforms {tr.length} {states} {fresh}")
       else
         let k := if r.wf then (firstBad r fs0 [] tr 0).getD 0 else 0
-        ((), s!"violates {k} {states}")
+        ((), s!"violates {k} {states} {fresh}")
     | _, _, _, _, _ => ((), "bad-op")
   | _ => ((), "bad-op")
 
